@@ -175,16 +175,26 @@ def observe(oc: dict) -> e2e.Result:
 
 
 # ---------------------------------------------------------------- classification w.r.t. the known findings (input only)
-def default_trigger(oc: dict, f: dict, d: Any) -> str:
+def default_trigger(oc: dict, f: dict, d: Any, kept_wrapper: str | None = None) -> str:
     """Class of a default (an entry of the field's enum) w.r.t. the recorded defects of the default -> member step, from the
-    input alone. With --collapse-root-models a wrapper (nullable root, alias definition) is folded into the field BEFORE
-    the defaults are converted, so the wrapper classes only exist without that option."""
+    input — and, under --collapse-root-models, from the emitted annotation of the member. With --collapse-root-models a
+    wrapper (nullable root, alias definition) is normally folded into the field BEFORE the defaults are converted, so the
+    wrapper classes only exist without that option. Together with --reuse-model the fold can stop at the NULLABLE root model
+    (the second of two identical nullable enums is written `class Tint(Colour): pass`, so `Colour` stays a class; a member that
+    reaches it through an alias definition is folded one level only and keeps the annotation `Optional[Colour]`): the member
+    then refers to the wrapper exactly as without the option, and the conversion step that fails is the one of D27 / C09-F3.
+    `kept_wrapper` = name of the non-Enum class of the emitted package that the member's annotation still mentions (read from
+    the emitted class by `kept_wrapper_of`), None when the annotation names the Enum itself."""
     e, chain = resolve(oc, f["to"])
     collapse = bool(oc["opts"].get("collapse_root_models"))
     if base.py_equal_groups(non_null(e)):
         return "py_equal_values"  # D12
     if None in e["values"] and e["type"] != "string":
         return "null_not_string_typed"  # D12: `NoneType_None = None` is a member, find_member skips it
+    if collapse and kept_wrapper is not None and is_nullable_wrapper(e):
+        # the fold left the nullable root model in place (see above): D27 / C09-F3. A kept ALIAS wrapper under the option has
+        # never been observed and is deliberately not classified (a failure there is reported as a violation).
+        return "nullable_wrapper" if d else "nullable_wrapper_falsy_default"
     if collapse:
         # the field refers to the enum itself: the lookup of D24 on the kept entries
         return cd.default_trigger(e["type"], non_null(e) if is_nullable_wrapper(e) else e["values"], d)
@@ -254,6 +264,31 @@ def member_written_in(oc: dict, module: list) -> bool:
         if e["module"] == module:
             return True
     return False
+
+
+def kept_wrapper_of(H: type, fname: str, live) -> str | None:
+    """Name of a class of the emitted package that is NOT an Enum and that the annotation of `H.fname` mentions (a root model
+    that --collapse-root-models did not fold into the member), read from the emitted class; None when there is none."""
+    ann = (getattr(H, "__annotations__", None) or {}).get(fname)
+    if ann is None:
+        return None
+    text = ann if isinstance(ann, str) else getattr(ann, "__name__", None) or repr(ann)
+    try:
+        tree = ast.parse(text, mode="eval")
+    except SyntaxError:
+        return None
+    mod = sys.modules.get(H.__module__)
+    for node in ast.walk(tree):
+        if not isinstance(node, (ast.Name, ast.Attribute)):
+            continue
+        obj: Any = mod
+        for part in ast.unparse(node).split("."):
+            obj = getattr(obj, part, None)
+            if obj is None:
+                break
+        if isinstance(obj, type) and live(obj) and not issubclass(obj, pyenum.Enum):
+            return obj.__name__
+    return None
 
 
 # ---------------------------------------------------------------- the oracle on one case
@@ -383,7 +418,10 @@ def check_ocase(ck: Check, camp, oc: dict) -> None:
                     continue
                 bad.append(why)
             if bad:
-                trig = next((t for t in (default_trigger(oc, f, dv) for dv in ds) if t != "none"), "none")
+                kept = kept_wrapper_of(H, f["name"], live) if opts.get("collapse_root_models") else None
+                if kept is not None:
+                    camp.hit("default:collapse_left_wrapper_in_place")
+                trig = next((t for t in (default_trigger(oc, f, dv, kept) for dv in ds) if t != "none"), "none")
             how = behind_root(oc, f)
             camp.hit(f"default:{f['shape']}:{how}:{'inherited:' if inherited else ''}{combo}:{'member' if not bad else 'not_member'}")
             if any(not dv for dv in ds):
@@ -621,6 +659,18 @@ CORPUS: list[dict] = [
                                             {"name": "Tone", "module": [], "is": "alias", "target": "Colour"}]),
                          ("Colour", "Tint", [{"name": "Colour", "module": [], "is": "enum", "type": "string", "values": ["p", "q", None]},
                                              {"name": "Tint", "module": [], "is": "enum", "type": "string", "values": ["p", "q", None]}]))],
+    # both options, two identical NULLABLE string enums (the second becomes `class Tint(Colour): pass`, the root model `Colour` stays) and a
+    # member that reaches `Colour` through alias definitions: the fold stops at `Optional[Colour]`. Truthy default: validated through the root
+    # model (must hold); falsy default "": the route of known finding C09-F3 under the option pair (first met by the random stream, seed 8)
+    *[{"okind": "single", "model": model, "opts": {"set_default_enum_member": True, "reuse_model": True, "collapse_root_models": True},
+       "defs": [{"name": "Colour", "module": [], "is": "enum", "type": "string", "values": ["", "on", None]},
+                {"name": "Tint", "module": [], "is": "enum", "type": "string", "values": ["", "on", None]},
+                {"name": "Shade", "module": [], "is": "alias", "target": "Colour", "default": "on"},
+                {"name": "Tone", "module": [], "is": "alias", "target": "Colour", "default": dflt}],
+       "holder": {"name": "Widget", "module": [], "at": "root", "pos": 1},
+       "fields": [{"name": "first", "shape": "scalar", "to": {"def": "Colour"}, "wrap": "ref", "default": ""},
+                  {"name": "fifth", "shape": "scalar", "to": {"def": "Tone"}, "wrap": "allOf"}]}
+      for model in ("pydantic.BaseModel", "pydantic_v2.BaseModel") for dflt in ("on", "")],
 ]
 
 
